@@ -48,10 +48,27 @@ def compress(pats: np.ndarray, xs: np.ndarray, qs: np.ndarray, qm: np.ndarray) -
     return np.unique(keep)
 
 
-def events_for(E: int, M: int, pats: np.ndarray, do_compress: bool) -> List[List[int]]:
+_SHARED: Dict[str, Any] = {}
+
+
+def format_object(E: int, M: int, reuse: bool) -> Any:
+    """A fresh FPFormat, or -- FPFormat is a plain mutable dataclass -- ONE long-lived object whose exponent_bits / mantissa_bits
+    are re-assigned after it has been used for another format (anything memoised on the object would be stale)."""
     from unit_scaling.formats import FPFormat
 
-    f = FPFormat(E, M, rounding="nearest")
+    if not reuse:
+        return FPFormat(E, M, rounding="nearest")
+    f = _SHARED.get("f")
+    if f is None:
+        f = _SHARED["f"] = FPFormat(5, 2, rounding="nearest")
+        f.quantise(torch.tensor([1.0, 300.0, 1e9]))
+        _ = (f.max_absolute_value, f.min_absolute_normal, f.min_absolute_subnormal)
+    f.exponent_bits, f.mantissa_bits = E, M
+    return f
+
+
+def events_for(E: int, M: int, pats: np.ndarray, do_compress: bool, reuse: bool = False) -> List[List[int]]:
+    f = format_object(E, M, reuse)
     x = quant.to_tensor(pats)
     x0 = x.clone()
     q = f.quantise(x)
@@ -121,7 +138,7 @@ def range_events() -> List[List[int]]:
 
     ev = []
     for (E, M) in quant.ALL_FORMATS:
-        f = FPFormat(E, M, rounding="nearest")
+        f = format_object(E, M, reuse=(E + 2 * M) % 4 == 1)
         mx = float(f.max_absolute_value)
         pat = int(np.float32(mx).view(np.uint32)) if np.float64(np.float32(mx)) == mx else -1
         mn, ms = float(f.min_absolute_normal), float(f.min_absolute_subnormal)
@@ -180,7 +197,7 @@ def run(rep: Report, tier: str) -> None:
         # compression the TLC cost is ~2 events per representable value crossed
         nrand = 1 if quick else (1 << 14 if E + M <= 10 else (1 << 8 if E + M <= 16 else 16))
         pats = quant.inputs_for_format(E, M, rng, nvals, nrand)
-        ev, n = events_for(E, M, pats, do_compress=not quick or True)
+        ev, n = events_for(E, M, pats, do_compress=not quick or True, reuse=(E + M) % 3 == 0)
         n_inputs += n
         all_events += ev
         rep.case(("fmt", E, M))
